@@ -61,3 +61,14 @@ Print Assumptions C40_at_most_one_handler.
 Theorem C40_model_satisfies_monitor : forall i, monitor i (model i) = true.
 Proof. exact model_monitor. Qed.
 Print Assumptions C40_model_satisfies_monitor.
+
+(* ALPNs are byte strings: two ALPNs are the same protocol iff they are the same bytes
+   (no text rendering, normalisation or prefix matching), and the registry's key order
+   separates any two different ones. *)
+Theorem C40_alpns_compared_as_bytes : forall x y : alpn, alpn_eqb x y = true <-> x = y.
+Proof. exact alpn_eqb_iff. Qed.
+Print Assumptions C40_alpns_compared_as_bytes.
+
+Theorem C40_key_order_total : forall x y : alpn, x <> y -> bytes_ltb x y = true \/ bytes_ltb y x = true.
+Proof. exact bytes_ltb_total. Qed.
+Print Assumptions C40_key_order_total.
